@@ -183,6 +183,16 @@ func VerifyFunction(p *Program, name string, opt Options) FnReport {
 		}
 		rep.Results = append(rep.Results, r)
 	}
+	for _, key := range smt.SortedKeys(fc.devirtUsed) {
+		target := fc.devirtUsed[key]
+		bad := p.FieldIsScan(key, target)
+		r := OblResult{Oblig: Oblig{Fn: name, Name: fc.Name + "/scan.fieldis." + key, Kind: "scan.fieldis", Where: key, Text: key + " only ever holds " + target}, Status: "proved", Raw: "scan", Solver: "ssa-scan"}
+		if len(bad) > 0 {
+			r.Status = "failed"
+			r.Output = strings.Join(bad, "; ")
+		}
+		rep.Results = append(rep.Results, r)
+	}
 	for _, so := range p.Spec.StoredOnlyIn {
 		if so[1] != name {
 			continue
